@@ -764,7 +764,9 @@ class SqlalchemyRender:
             sql_query = str(ast_query)
             if self.dialect.name == 'postgresql':
                 # drop the back-quotes around names, not the ones inside string literals
-                sql_query = re.sub(r"'(?:\\.|[^'\\])*'|`", lambda m: '' if m.group(0) == '`' else m.group(0), sql_query)
+                # (a quoted name is taken as a whole: a quote character inside it does not open a literal)
+                sql_query = re.sub(r"'(?:\\.|[^'\\])*'|`([^`]*)`|`",
+                                   lambda m: m.group(0) if m.group(0)[0] == "'" else (m.group(1) or ''), sql_query)
             return sql_query, None
 
 
